@@ -722,7 +722,9 @@ def api_op(g, spec, kind):
                 p = part_arg(g, spec, t)
             xs.append(pm(t, p, value_arg(g), value_arg(g)))
         acks = rng.choice([1, 1, -1, 0])
-        secs, nanos = rng.choice([(0, 0), (1, 500000000), (0, 999999), (30, 0), (2147483, 647000000), (2147483, 648000000)])
+        # (the last three are far beyond the field but small modulo 2^64 ms: only a wrapping conversion lets them through)
+        secs, nanos = rng.choice([(0, 0), (1, 500000000), (0, 999999), (30, 0), (2147483, 647000000), (2147483, 648000000),
+                                  (18446744073709552, 0), (2305843009213693952, 7000000), (18446744073709551, 616000000)])
         if (secs, nanos) != (1, 500000000) and (secs, nanos) != (30, 0):
             g.mark("timeout")
         return T("produce_messages", [acks, secs, nanos, xs])
@@ -782,7 +784,8 @@ def setting_op(g, k):
     if k == "max_wait":
         g.mark("setting")
         return T("set_fetch_max_wait_time", list(rng.choice([(0, 0), (0, 1000000), (7, 1999999), (2147483, 647999999),
-                                                              (2147483, 648000000), (4000000, 0)])))
+                                                              (2147483, 648000000), (4000000, 0),
+                                                              (18446744073709552, 0), (2305843009213693952, 7000000), (18446744073709551, 616000000)])))
     if k == "max_bytes":
         g.mark("setting")
         return T("set_fetch_max_bytes_per_partition", [rng.choice([-1, 0, 1, I32MAX, I32MIN, 1 << 20])])
